@@ -60,7 +60,7 @@ Definition C13_stop_reached : Prop :=
     wf_b U = true -> lib_ok_b LNone U = true -> hub_of_universe U c w ->
     chain_ok canon -> incl canon U ->
     let merged := filter (fun b => bnum b <? merged_end) canon in
-    eventual_tip c w canon -> files_agree c w merged ->
+    eventual_tip c w canon ->
     j_mode c = 0 -> j_filter c = 0 -> 0 < j_bundle c -> Forall (fun b => bnum b < file_bound) merged ->
     j_stop c <> 0 -> j_stop c <= file_bound ->
     let start := run_start c w in
